@@ -39,8 +39,8 @@ check('C18',
       design_ref='5.15')
 
 check('C16',
-      'Routing-decision kernel: bounded model checking of BaseModelMutation.is_mutable (seven model-mutation classes), BaseEvolutionTask.is_mutation_mutable and DeleteApplication.simulate with the router lookup replaced by a symbolic routing table: a mutation is kept for database D iff its model is routed to D. A genuine defect (router ignored when a database name is passed) is recorded as a known finding; everything outside its region is still exhausted.',
-      'Only the routing decision: tables created where, the other database staying untouched and per-database signatures need two live databases through the untraceable Evolver pipeline and are outside. Stub: get_database_for_model_name. Trusted: CrossHair+z3.',
+      'Routing-decision kernel: bounded model checking of BaseModelMutation.is_mutable (seven model-mutation classes), BaseEvolutionTask.is_mutation_mutable and DeleteApplication.simulate with the router lookup replaced by a symbolic routing table: a mutation is kept for database D iff its model is routed to D. Also: db_get_installable_models_for_app and AppSignature.from_app against the real django.db.router with a table-driven router (exactly the allowed, not yet installed models are created / recorded), and Evolver.__init__ on two real SQLite databases (baseline read from / installed on the evolved database only; 8 discrete scenarios). A genuine defect (router ignored when a database name is passed) is recorded as a known finding; everything outside its region is still exhausted.',
+      'Decision kernels only: the SQL of a whole evolve() run landing on the right database and leaving the other untouched needs the untraceable Evolver pipeline end to end and is outside. Stubs: get_database_for_model_name (routing table); get_models/get_app_label/get_app_upgrade_info return three fixed model classes. Trusted: CrossHair+z3.',
       'CrossHair symbolic execution (z3) of is_mutable / mutation filtering with a symbolic routing table; known-finding region excluded by precondition',
       design_ref='5.13')
 
